@@ -9,7 +9,7 @@ let kv l k d = try int_of_string (List.assoc k l) with _ -> d
 let kvstr l k d = try List.assoc k l with _ -> d
 let b2i b = if b then 1 else 0
 let variant_of s = let h c = String.contains s c in
-  { fa = h 'a'; fb = h 'b'; fc_ = h 'c'; fd = h 'd'; fe = h 'e'; ff = h 'f' }
+  { fa = h 'a'; fb = h 'b'; fc_ = h 'c'; fd = h 'd'; fe = h 'e'; ff = h 'f'; fg = h 'g'; fh = h 'h'; fi = h 'i' }
 
 let print_out o = match o with
   | ORx m -> Printf.printf "rxmsg %s\n" (hex_of_bytes m)
@@ -221,6 +221,11 @@ let net_cmd cmd line =
             | _ -> ())
          end
      | "poll" when who >= 0 -> (match !mst with Up p -> let (p', _) = pu_request p (zi (saddr who)) false in mst := Up p' | _ -> ())
+     | "mtest" when who >= 0 ->
+         (match !mst with
+          | Up p -> mst := Up (pu_test p (zi (saddr who)))
+          | Bal b -> mst := Bal (bal_with b (pb_with_test b.b_p true) b.b_s b.b_q)
+          | _ -> ())
      | "inject" -> if who < 0 then mrx := !mrx @ hex () else !nsl.(who).srx <- !nsl.(who).srx @ hex ()
      | _ -> print_endline ("? " ^ line))
 
